@@ -67,6 +67,8 @@ static void applyOpt(GMGPolar& g, const std::string& name, int val)
         if (!val)
             g.setSolution(nullptr);
     }
+    else if (name == "grid")
+        g.divideBy2(val);
     else if (name == "misc") {
         Misc m = miscOf(val);
         g.multigridCycle(static_cast<MultigridCycleType>(m.cycle));
@@ -93,8 +95,9 @@ static std::unique_ptr<GMGPolar> construct(const mj::Value& c)
     g->verbose(0);
     g->paraview(false);
     const auto& o = c["ctor"];
-    for (const char* n : {"ext", "fmg", "L", "take", "caches", "maxIter", "absOn", "relOn", "exact", "misc"})
-        applyOpt(*g, n, o[n].kind == mj::Value::Bool ? (int)o[n].boolean() : o[n].num());
+    for (const char* n : {"ext", "fmg", "L", "take", "caches", "maxIter", "absOn", "relOn", "exact", "misc", "grid"})
+        if (o.has(n))
+            applyOpt(*g, n, o[n].kind == mj::Value::Bool ? (int)o[n].boolean() : o[n].num());
     return g;
 }
 
@@ -163,9 +166,9 @@ int main(int argc, char** argv)
         const auto& o = c["ctor"];
         auto B        = [&](const char* n) { return (int)o[n].boolean(); };
         event("Ctor", "\"c01\":%d,\"case\":%d,\"ext\":%d,\"fmg\":%d,\"L\":%d,\"take\":%d,\"caches\":%d,\"maxIter\":%d,\"absOn\":%d,\"relOn\":%d,"
-                      "\"exact\":%d,\"misc\":%d",
+                      "\"exact\":%d,\"misc\":%d,\"grid\":%d",
               c.has("c01") ? c["c01"].num() : 0, c["id"].num(), o["ext"].num(), B("fmg"), o["L"].num(), B("take"), B("caches"), o["maxIter"].num(),
-              B("absOn"), B("relOn"), B("exact"), o["misc"].num());
+              B("absOn"), B("relOn"), B("exact"), o["misc"].num(), o.has("grid") ? o["grid"].num() : 0);
         std::vector<std::pair<std::string, int>> optHistory;
         bool exactOn = o["exact"].boolean();
         int misc = o["misc"].num(), ext = o["ext"].num();
